@@ -4,8 +4,8 @@
 (* called on (= the store that instance owns), the store actually hit, the    *)
 (* property and the identity of the value written / read.                     *)
 (* Nothing about the ORDER of events inside a request is assumed.             *)
-(*   register 1: tids explained by the as-is mechanism (every event hit the   *)
-(*               store selected by the class-level closure variable and every *)
+(*   register 1: tids explained by the mechanism (every event hit the store   *)
+(*               selected by the per-thread current-store variable and every  *)
 (*               read returned that store's slot)                             *)
 (*   register 3: tids explained by per-instance store lookup                  *)
 (*   register 2: <<tid, clause>> property failures (Isolation from the log    *)
@@ -17,7 +17,7 @@ T == Traces[tid]
 E == T.ev[l]
 Op(e) == [ev |-> e.ev, cls |-> e.cls, inst |-> e.own, prop |-> IF e.ev \in {"bind", "req"} THEN "" ELSE e.prop]
 TInit == /\ tid \in 1..Len(Traces) /\ l = 1
-         /\ st = InitSt([c \in {"Req", "Resp"} |-> Traces[tid].bound0[c]])
+         /\ st = InitSt
          /\ asis = TRUE /\ own = TRUE
 TStep == /\ l <= Len(T.ev)
          /\ LET e == E
@@ -25,7 +25,7 @@ TStep == /\ l <= Len(T.ev)
                 h == IF e.ev \in {"bind", "req"} THEN e.own ELSE e.hit
                 v == IF e.ev \in {"bind", "req"} THEN 0 ELSE e.val IN
             /\ st' = Apply(st, e.t, op, h, v)
-            /\ asis' = (asis /\ (e.ev \in {"bind", "req"} \/ (h = HitAsIs(st.bound, op)
+            /\ asis' = (asis /\ (e.ev \in {"bind", "req"} \/ (h = HitAsIs(st.bound, e.t, op, 0)
                                    /\ (e.ev = "get" => v = Look(st.slot, <<h, e.t, e.prop>>)))))
             /\ own' = (own /\ (e.ev \in {"bind", "req"} \/ h = e.own))
          /\ l' = l + 1 /\ UNCHANGED tid
